@@ -417,6 +417,7 @@ var faultModes = []string{
 	"dup-version", "verack-first", "sendaddrv2-first", "app-first", "unknown-first", "obsolete-version", "self-nonce",
 	"wrongnet-first", "wrongnet-mid", "wrongnet-after", "app-mid", "malformed-first", "malformed-mid", "oversize-mid",
 	"no-verack", "dup-verack", "sendaddrv2-after", "dup-version-after", "sendaddrv2-low-version", "verack-version-swapped",
+	"negative-version", "future-version",
 }
 
 func genHandshake(t *rapid.T, p profile) (string, []rspec) {
@@ -454,6 +455,12 @@ func genHandshake(t *rapid.T, p profile) (string, []rspec) {
 		return mode, []rspec{genUnknown(t), V, A}
 	case "obsolete-version":
 		return mode, []rspec{genVersion(t, genObsoletePver(t), false), A}
+	case "negative-version":
+		// the version field is a signed 32-bit integer on the wire: read as signed it is obsolete, read as
+		// unsigned it is far in the future; the model allows the refusal and the acceptance (negotiating the local version)
+		return mode, []rspec{genVersion(t, pick(t, "negPver", []int32{-1, -2, -70016, -2147483648, -2147483647}), false), A}
+	case "future-version":
+		return mode, []rspec{genVersion(t, pick(t, "futurePver", []int32{70018, 80000, 1 << 20, 2147483647, 2147483646}), false), A}
 	case "self-nonce":
 		return mode, []rspec{genVersion(t, genGoodPver(t), true), A}
 	case "wrongnet-first":
